@@ -89,7 +89,12 @@ where
         let r = match self.0 {
             Inner::Dead => return Err(io::Error::new(io::ErrorKind::BrokenPipe, "body is dead")),
             Inner::Raw(ref mut w) => w.flush(),
-            Inner::Gzipped(ref mut w) => w.flush(),
+
+            // `flate2` ignores the sync flush request when the compressor still holds output
+            // from earlier writes (it only drains that output), leaving the most recently
+            // written bytes undecodable by the client. A second flush is always effective,
+            // at the cost of one more empty stored block.
+            Inner::Gzipped(ref mut w) => w.flush().and_then(|()| w.flush()),
         };
         if r.is_err() {
             self.0 = Inner::Dead;
